@@ -144,6 +144,16 @@ def masked_by_where(P, f, du, node):
     return False
 
 
+def type_canon(num_v, den_v):
+    """The construct as `<abstract type of the numerator> / <abstract type of the denominator>` (unit, extent, axes): the same for
+    every spelling of the same quotient (renamed locals, temporaries, np.divide, reshape instead of [:, None])."""
+    def t(v):
+        if v is None or not getattr(v, "is_numlike", False) or v.is_unk:
+            return "?"
+        return fmt(v.copy(cval=None, sh=None))
+    return f"{t(num_v)} / {t(den_v)}"
+
+
 def check_divisions(P, R, roots, modules, rule="GUARD.div"):
     obs, rets = dimrun.run_roots(P, roots)
     seen = {}
@@ -157,9 +167,9 @@ def check_divisions(P, R, roots, modules, rule="GUARD.div"):
                 k = (fkey, src(node))
                 if k in seen:
                     continue
-                seen[k] = (fkey, node, den_v, track_s)
+                seen[k] = (fkey, node, den_v, track_s, num_v)
     n_sites = 0
-    for (fkey, txt), (fk, node, den_v, track_s) in sorted(seen.items()):
+    for (fkey, txt), (fk, node, den_v, track_s, num_v) in sorted(seen.items()):
         f = P.func(fk)
         du = get_defuse(f, P)
         cls, detail = classify(P, f, du, node, den_v, track_s)
@@ -169,7 +179,7 @@ def check_divisions(P, R, roots, modules, rule="GUARD.div"):
             if masked_by_where(P, f, du, node):
                 R.ok(rule, fk, what, "count denominator; G3: quotient only used as the non-selected arm of np.where on the same test", node.lineno)
             else:
-                R.violation(rule, fk, what, f"division by a per-component/per-cluster count ({detail}) that is neither floored (np.clip / np.where / np.maximum / + positive scalar) nor masked: a component or cluster that receives no data gives 0/0 = NaN parameters", node.lineno, canon=canon_text(f, node))
+                R.violation(rule, fk, what, f"division by a per-component/per-cluster count ({detail}) that is neither floored (np.clip / np.where / np.maximum / + positive scalar) nor masked: a component or cluster that receives no data gives 0/0 = NaN parameters", node.lineno, canon=type_canon(num_v, den_v))
         else:
             R.ok(rule, fk, what, f"denominator class: {cls} ({detail})", node.lineno, nontrivial=cls in ("floored",))
     return n_sites
